@@ -610,12 +610,12 @@ class Body:
             ck = rv.get("ck", "")
             if "Unsize" in ck or "PointerCoercion" in ck or "Transmute" in ck and False:
                 return inner
-            return ("cast", inner, rv.get("ty"))
+            return ("cast", inner, rv.get("ty"), rv.get("from_ty"))
         if k == "agg":
             return ("agg", rv, [self.origin(o, depth + 1, through_calls, seen, chooser) for o in rv["ops"]])
         if k == "binop":
             return ("binop", rv["op"], self.origin(rv["a"], depth + 1, through_calls, seen, chooser),
-                    self.origin(rv["b"], depth + 1, through_calls, seen, chooser))
+                    self.origin(rv["b"], depth + 1, through_calls, seen, chooser), self._op_ty(rv["a"]))
         if k == "unop":
             return ("unop", rv["op"], self.origin(rv["a"], depth + 1, through_calls, seen, chooser))
         if k == "discr":
@@ -692,6 +692,15 @@ class Body:
                         al.add(s["place"]["l"])
                         changed = True
         return al
+
+    def _op_ty(self, op):
+        pl = op.get("c") or op.get("m")
+        if pl is not None and "p" not in pl:
+            return self.local_ty(pl["l"])
+        k = op.get("k")
+        if isinstance(k, dict):
+            return k.get("ty")
+        return None
 
     # ---- switch helpers -------------------------------------------------------------------------
     def switches(self, normal_only=True):
